@@ -30,7 +30,13 @@ PROPERTY = Property(
                      '(inferior paths repeating the old name, sibling prefixes), 700 (quick) / 8000 (thorough) seeded '
                      'programs of 3-7 ops; after programs (and after every step for 20%) 25 reference/pattern pairs incl. '
                      '%, *, empty-matching %, newline, non-ASCII as LIST and LSUB',
-                     bounded_names('C11'), decisive=True)],
+                     bounded_names('C11'), decisive=True),
+             Bounded('the same on the maildir backend, layout ++', 'the first 250 (quick) / 2500 (thorough) programs of the '
+                     'scope above on the real MaildirBackend (temporary directory, thread pool); RFC SHOULDs a backend may '
+                     'refuse (missing superior, rename into own inferior) accept either answer',
+                     bounded_names('C11', 'maildir++'), decisive=True),
+             Bounded('the same on the maildir backend, layout fs', 'as above, layout fs',
+                     bounded_names('C11', 'maildirfs'), decisive=True)],
     level='other', design_ref='6 C11',
     explanation='deductive: guards, error mapping and the map view of the dict mailbox set (z3); bounded: pattern '
                 'semantics (regex), get_renames / rename_mailbox, LIST rendering and the composition',
